@@ -15,16 +15,19 @@ const REGS: [[u16; 8]; 4] = [
 fn flags(i: u64, fill: u16) -> SimFlags {
     SimFlags { strict: i & 1 != 0, use_real_traps: i & 2 != 0, ignore_privilege: i & 4 != 0, debug_frames: i & 8 != 0, machine_init: MachineInitStrategy::Known { value: fill } }
 }
-fn attach(sim: &mut Simulator, noisy: bool) {
+fn attach(sim: &mut Simulator, noisy: bool) { let _ = attach_h(sim, noisy); }
+fn attach_h(sim: &mut Simulator, noisy: bool) -> (BufferedKeyboard, BufferedDisplay) {
     let kb = BufferedKeyboard::default(); kb.get_buffer().write().unwrap_or_else(|e| e.into_inner()).extend(b"pq");
-    sim.device_handler.set_keyboard(kb);
-    sim.device_handler.set_display(BufferedDisplay::default());
+    sim.device_handler.set_keyboard(kb.clone());
+    let disp = BufferedDisplay::default();
+    sim.device_handler.set_display(disp.clone());
     // noisy: a timer that fires at the very first poll and keyboard interrupts on; quiet: timer far away, IE off
     let mut t = if noisy { TimerDevice::new(Some(1), 1..=1, 0x81, 4) } else { TimerDevice::new(Some(1), 2..=3, 0x81, 4) }; t.enabled = true;
     let _ = sim.device_handler.add_device(t, &[]);
     let _ = sim.mmap_internal(0xFE30, InternalRegister::SavedSP);
     let _ = sim.mmap_internal(0xFE32, InternalRegister::PC);
     if noisy { let _ = sim.write_mem(0xFE00, Word::new_init(0x4000), lc3_ensemble::sim::MemAccessCtx::omnipotent()); }
+    (kb, disp)
 }
 fn err_name(e: &SimErr) -> String { let s = format!("{e:?}"); s.split('(').next().unwrap_or("").to_string() }
 
@@ -87,8 +90,9 @@ fn c_objs() -> &'static Vec<lc3_ensemble::asm::ObjectFile> {
     static O: std::sync::OnceLock<Vec<lc3_ensemble::asm::ObjectFile>> = std::sync::OnceLock::new();
     O.get_or_init(|| C_SRC.iter().map(|s| lc3_ensemble::asm::assemble_debug(lc3_ensemble::parse::parse_ast(s).expect("parses"), s).expect("assembles")).collect())
 }
-const C_OPS: [&str; 13] = ["load 3-block file", "load 1-block file", "load 2-block file", "load reserved-only file", "run_with_limit(40)", "step_in", "reset", "pc := x3000", "toggle strict",
-    "add_device at [xFE10, xFE00] (second port taken: must fail)", "add_device at [xFE10, xFE12]", "remove_device(last id)", "host read and write of xFE10 / xFE12"];
+const C_OPS: [&str; 16] = ["load 3-block file", "load 1-block file", "load 2-block file", "load reserved-only file", "run_with_limit(40)", "step_in", "reset", "pc := x3000", "toggle strict",
+    "add_device at [xFE10, xFE00] (second port taken: must fail)", "add_device at [xFE10, xFE12]", "remove_device(last id)", "host read and write of xFE10 / xFE12",
+    "the thread feeding the keyboard dies holding its buffer lock (lock poisoned, free again)", "the thread draining the display dies holding its buffer lock", "host read of KBSR/KBDR/DSR and write of DDR"];
 #[derive(Clone)]
 struct Dummy;
 impl lc3_ensemble::sim::device::ExternalDevice for Dummy {
@@ -97,14 +101,14 @@ impl lc3_ensemble::sim::device::ExternalDevice for Dummy {
     fn io_reset(&mut self) {}
     fn poll_interrupt(&mut self) -> Option<lc3_ensemble::sim::device::Interrupt> { None }
 }
-fn c_history(mut h: u64, len: u32) -> Vec<usize> { let mut v = vec![]; for _ in 0..len { v.push((h % 13) as usize); h /= 13; } v }
+fn c_history(mut h: u64, len: u32) -> Vec<usize> { let mut v = vec![]; for _ in 0..len { v.push((h % 16) as usize); h /= 16; } v }
 fn case_c(h: u64, len: u32, fl: u64) -> Result<String, (String, String)> {
     let ops = c_history(h, len);
     let names: Vec<&str> = ops.iter().map(|o| C_OPS[*o]).collect();
     let mut at = 0usize;
     let r = catch(std::panic::AssertUnwindSafe(|| {
         let mut sim = Simulator::new(flags(fl, 0x0000));
-        attach(&mut sim, false);
+        let (kb, disp) = attach_h(&mut sim, false);
         let mut outs = String::new();
         let mut last_id = None;
         for (k, o) in ops.iter().enumerate() {
@@ -119,6 +123,10 @@ fn case_c(h: u64, len: u32, fl: u64) -> Result<String, (String, String)> {
                 9 => { let r = sim.device_handler.add_device(Dummy, &[0xFE10, 0xFE00]); outs.push(if r.is_ok() { 'a' } else { 'A' }); }
                 10 => { match sim.device_handler.add_device(Dummy, &[0xFE10, 0xFE12]) { Ok(id) => { last_id = Some(id); outs.push('d'); } Err(_) => outs.push('D') } }
                 11 => { if let Some(id) = last_id.take() { sim.device_handler.remove_device(id); } outs.push('x'); }
+                13 => { poison_rwlock(&kb.get_buffer()); outs.push('k'); }
+                14 => { poison_rwlock(&disp.get_buffer()); outs.push('y'); }
+                15 => { let c = lc3_ensemble::sim::MemAccessCtx { privileged: true, ..sim.default_mem_ctx() };
+                        for a in [0xFE00u16, 0xFE02, 0xFE04] { let _ = sim.read_mem(a, c); } let _ = sim.write_mem(0xFE06, Word::new_init(0x41), c); outs.push('i'); }
                 _ => { for a in [0xFE10u16, 0xFE12] {
                         let _ = sim.read_mem(a, lc3_ensemble::sim::MemAccessCtx::omnipotent());
                         let c = sim.default_mem_ctx(); let c = lc3_ensemble::sim::MemAccessCtx { privileged: true, ..c };
@@ -157,7 +165,7 @@ fn case_d(kind: u64, fl: u64) -> Result<String, (String, String)> {
 }
 
 pub fn run(ctx: &Ctx) -> Report {
-    let mut rep = Report::new("(a) every 16-bit word at each of 13 boundary PCs (quick: 3: x3000, xFE00, xFFFF) x 4 register presets (quick: rotated) x all 16 combinations of {strict, real traps, ignore privilege, debug frames} x {user, supervisor}, with keyboard (IE on, data queued), display, an enabled timer and internal-register mappings (1 case in 8 'noisy': timer firing at the first poll and keyboard interrupts enabled; otherwise first fire after 2-3 polls) of PC and saved SP attached; up to 3 steps, prefetch_pc() after each; (b) uniform images: all 64K words = w for every w, PC = xFFF0, 20 (thorough 60) steps across the address wrap, then run_while with an 8-step tripwire, for flag sets rotated by w (thorough: all 16). (c) every history of <=4 (thorough 5) operations on one simulator over {load a 3-block / 1-block / 2-block / reserved-words-only object file, run_with_limit(40), step_in, reset, pc := x3000, toggle strict, add_device with a taken port (must fail), add_device on free ports, remove_device, host reads/writes of those ports} under 4 (thorough 16) flag sets, so that loads over loads and runs after reloads are covered. Oracle: no panic (overflow checks on); every failure is a SimErr. non-trivial = cases that end in a simulator error");
+    let mut rep = Report::new("(a) every 16-bit word at each of 13 boundary PCs (quick: 3: x3000, xFE00, xFFFF) x 4 register presets (quick: rotated) x all 16 combinations of {strict, real traps, ignore privilege, debug frames} x {user, supervisor}, with keyboard (IE on, data queued), display, an enabled timer and internal-register mappings (1 case in 8 'noisy': timer firing at the first poll and keyboard interrupts enabled; otherwise first fire after 2-3 polls) of PC and saved SP attached; up to 3 steps, prefetch_pc() after each; (b) uniform images: all 64K words = w for every w, PC = xFFF0, 20 (thorough 60) steps across the address wrap, then run_while with an 8-step tripwire, for flag sets rotated by w (thorough: all 16). (c) every history of <=4 (thorough 5) operations on one simulator over {load a 3-block / 1-block / 2-block / reserved-words-only object file, run_with_limit(40), step_in, reset, pc := x3000, toggle strict, add_device with a taken port (must fail), add_device on free ports, remove_device, host reads/writes of those ports, the keyboard's / the display's buffer lock poisoned by a thread that died holding it, host reads of KBSR/KBDR/DSR and a write of DDR} under 4 (thorough 16) flag sets, so that loads over loads and runs after reloads are covered. Oracle: no panic (overflow checks on); every failure is a SimErr. non-trivial = cases that end in a simulator error");
     let npc = ctx.pick(3u64, 13u64);
     let nreg = ctx.pick(1u64, 4u64);
     let r = sweep(ctx, 65536 * npc * nreg * 16 * 2, 2048, |k, acc| {
@@ -185,7 +193,7 @@ pub fn run(ctx: &Ctx) -> Report {
     // (c)
     let maxlen = ctx.pick(4u32, 5u32);
     for len in 1..=maxlen {
-        let n = 13u64.pow(len);
+        let n = 16u64.pow(len);
         let nf = ctx.pick(4u64, 16u64);
         let r = sweep(ctx, n * nf, 16, |k, acc| {
             let (h, f) = (k / nf, k % nf);
